@@ -357,7 +357,7 @@ def run(ctx):
     qp = put.calls('qmail_put')
     okp = bool(cd and qf and qp)
     if okp:
-        gq = put.guards(qf[0]) or []
+        gq = put.guards(qf[0], fresh=False) or []
         okp = any(c.strip().k == 'un' and c.strip().op == '!' and c.strip().args[0].strip().id == cd[0].id and t is True for c, t in gq) and \
             any(c.path() == 'G:bytestooverflow' and t is True for c, t in gq) and not put.can_reach(put.pos[qp[0].id][0], put.pos[qf[0].id][0]) and \
             not (put.guards(qp[0]) or [])
